@@ -46,11 +46,7 @@ Definition option_sets (n : node) (tag : string) (fp : list string) : list optse
 
 (* quick tier: per unit the variant with the most mutation positions (every collection populated, so that
    every field of every element of every collection-of-structs field is mutated) and the second variant *)
-Definition richest (n : node) (l : list (nat * val)) : nat :=
-  fst (fold_left (fun (best : nat * nat) (iv : nat * val) =>
-                    let c := List.length (muts n (snd iv)) in
-                    if Nat.ltb (snd best) c then (fst iv, c) else best) l (0%nat, 0%nat)).
-
+(* [richest] is in GenDeq.v *)
 Definition pick_variants (tier : Z) (n : node) (l : list (nat * val)) : list (nat * val) :=
   if Z.eqb tier 0 then
     let r := richest n l in
@@ -74,6 +70,40 @@ Definition case_lines (tier : Z) (u : string * ty) : list string :=
         (option_sets n t fp))
       (combine (seqn (List.length (muts n a))) (muts n a)))
   (pick_variants tier n vs).
+
+(* the argument-form matrix (GenDeq.v) under options: every combination of (T, *T, **T) x (T, *T, **T), both
+   orders, on the first mutation of every kind in the richest variant, with the mutated field excluded
+   (the difference must vanish in every form) and filtered in (it must be seen in every form); at the root
+   of a named map / slice (no field) with empty options and a Filter naming nothing; floats also with a
+   Precision above the gap *)
+Definition matrix_option_sets (tag : string) (fp : list string) : list optset :=
+  let is_float := String.eqb tag "f10" || String.eqb tag "f01" in
+  (match fp with
+   | [] => [("empty", Some (DeqOpts zero [] [])); ("fi-none", fi ["Nope"])]
+   | _ => [("ex-self", ex [dotted fp]); ("fi-self", fi (with_anc fp))]
+   end ++
+   (if is_float then [("prec-hi", Some (DeqOpts p_hi [] []))] else []))%list.
+
+Definition matrix_lines (u : string * ty) : list string :=
+  let n := root_node u in
+  let vs := combine (seqn (List.length (variants n))) (variants n) in
+  let r := richest n vs in
+  flat_map (fun iv : nat * val =>
+    let '(vi, a) := iv in
+    if Nat.eqb vi r then
+      flat_map (fun jm : nat * mutn =>
+        let '(j, (t, fp, b)) := jm in
+        map (fun os : optset =>
+          let '(otag, o) := os in
+          let d := c11_demand (to_spec o) n a b in
+          deqm_line (fst u ++ "." ++ nat_to_string vi ++ ".fm.m" ++ nat_to_string j ++ "." ++ otag)
+                    ("formmatrix,opt," ++ otag ++ "," ++ t ++ "," ++ demand_tag d ++
+                     (match fp with [] => ",nofield" | [_] => ",top" | _ => ",nested" end))
+                    (fst u) n true o false a b d)
+          (matrix_option_sets t fp))
+        (first_of_tag (fun jm : nat * mutn => fst (fst (snd jm))) []
+           (combine (seqn (List.length (muts n a))) (muts n a)))
+    else []) vs.
 
 (* ---------- DEQMustCheck, exhaustively over the option classes ---------- *)
 Definition mc_opts : list optset :=
@@ -125,7 +155,7 @@ Definition eqf_lines (u : string) : list string :=
         b2s (equal_float64 a' b' (tolerance_of (to_spec o)))) ["64"; "32"]) (eqf_pairs o)) eqf_opts.
 
 Definition cases (tier : Z) (seed : Z) : list string :=
-  (flat_map (case_lines tier) (emit_units tier) ++
+  (flat_map (case_lines tier) (emit_units tier) ++ flat_map matrix_lines (emit_units tier) ++
    match emit_units tier with
    | u :: _ => mc_lines (fst u) ++ eqf_lines (fst u)
    | [] => []
